@@ -929,3 +929,141 @@ def c_unbounded_spec(which, excl, many, single):
     if many:
         return "LAST[%s]" % show(p_add(last, p_const(2), -1))
     return "EMPTY" if single else "PREV(LAST)[%s]" % show(p_add(_leaflen("PREV(LAST)"), p_const(1), -1))
+
+
+# ---------------------------------------------------------------------------
+# ENDS-CROSS (C BTree_rangeSearch): after both end positions are known the
+# range may still be empty because the ends crossed.  Same leaf: decided by
+# the offsets.  Different leaves: decided by comparing the two end keys, which
+# is needed exactly when both ends were moved inward (by a given bound or by an
+# exclusive omitted bound) - an end left at the first / last entry of the
+# chain cannot be crossed.  Decision table over (min given, excludemin, max
+# given, excludemax, same leaf): which emptiness tests run before the result
+# is built.
+
+def c_cross_table(tu):
+    body = tu.body("BTree_rangeSearch")
+    stmts = list(body.kids)
+    # the tail: statements after the second `!= None` branch
+    idx = [i for i, s in enumerate(stmts)
+           if s.k == "IfStmt" and len(s.kids) > 2 and "_Py_NoneStruct" in text(s.kids[0])
+           and path(strip(s.kids[0]).kids[0]) in ("min", "max")]
+    if len(idx) != 2:
+        raise AnalysisError("anchor vanished: bound branches of BTree_rangeSearch (%d)" % len(idx))
+    tail = stmts[idx[1] + 1:]
+    table = {}
+    for mg, emin, xg, emax, same in itertools.product((True, False), repeat=5):
+        tests = []
+
+        class _Done(Exception):
+            pass
+
+        def cond(e):
+            e = strip(e)
+            if e.k == "ParenExpr":
+                return cond(e.kids[0])
+            if e.k == "UnaryOperator" and e.v == "!":
+                v = cond(e.kids[0])
+                return None if v is None else not v
+            if e.k == "BinaryOperator" and e.v in ("&&", "||"):
+                l = cond(e.kids[0])
+                if e.v == "&&" and l is False:
+                    return False
+                if e.v == "||" and l is True:
+                    return True
+                r = cond(e.kids[1])
+                if l is None or r is None:
+                    if e.v == "&&" and r is False:
+                        return False
+                    if e.v == "||" and r is True:
+                        return True
+                    return None
+                return (l and r) if e.v == "&&" else (l or r)
+            if e.k == "DeclRefExpr" and e.n in ("excludemin", "excludemax"):
+                return emin if e.n == "excludemin" else emax
+            if e.k == "BinaryOperator" and e.v in ("==", "!="):
+                a, b = path(e.kids[0]), path(e.kids[1])
+                if a in ("min", "max") and "_Py_NoneStruct" in text(e.kids[1]):
+                    given = mg if a == "min" else xg
+                    return given == (e.v == "!=")
+                if {a, b} == {"lowbucket", "highbucket"}:
+                    return same == (e.v == "==")
+            if e.k == "BinaryOperator" and e.v in (">", "<", ">=", "<="):
+                a, b = path(e.kids[0]), path(e.kids[1])
+                if {a, b} == {"lowoffset", "highoffset"}:
+                    if (e.v == ">" and a == "lowoffset") or (e.v == "<" and a == "highoffset"):
+                        return "offsets"
+                    raise AnalysisError("ends-cross: offset comparison %s" % text(e))
+                if a == "cmp" and e.v == ">" and const_int(e.kids[1]) == 0:
+                    return "keys"
+            raise AnalysisError("ends-cross: condition %s at %s:%s" % (text(e), e.f, e.l))
+
+        def goes_empty(s):
+            gs = [n for n in s.walk() if n.k == "GotoStmt"]
+            return bool(gs) and all((g.n or "").startswith("empty") for g in gs)
+
+        def run(s):
+            k = s.k
+            if k == "CompoundStmt":
+                for c in s.kids:
+                    run(c)
+                return
+            if s.mo == "PER_UNUSE" and "self" in text(s):
+                raise _Done()
+            if k == "ReturnStmt":
+                raise _Done()
+            if k == "IfStmt":
+                ctext = text(s.kids[0])
+                if "setstate(" in ctext:
+                    neg = strip(s.kids[0]).k == "UnaryOperator" and strip(s.kids[0]).v == "!"
+                    if neg:
+                        if len(s.kids) > 2:
+                            run(s.kids[2])
+                    else:
+                        run(s.kids[1])
+                    return
+                if s.mo == "TEST_KEY_SET_OR":
+                    cs = [n for n in s.kids[0].walk() if n.k == "DeclRefExpr"]
+                    names = set(n.n for n in cs)
+                    if not {"first", "last"} <= names:
+                        raise AnalysisError("ends-cross: TEST_KEY_SET_OR over %s" % sorted(names))
+                    tests.append("compared")
+                    return
+                v = cond(s.kids[0])
+                if v in ("offsets", "keys"):
+                    if v == "keys" and "compared" not in tests:
+                        raise AnalysisError("ends-cross: cmp tested before the keys were compared")
+                    if not goes_empty(s.kids[1]):
+                        raise AnalysisError("ends-cross: crossed ends do not lead to the empty result at %s:%s" % (s.f, s.l))
+                    tests.append(v)
+                    return
+                if isinstance(v, str):
+                    raise AnalysisError("ends-cross: mixed condition %s" % text(s.kids[0]))
+                if v is None:
+                    raise AnalysisError("ends-cross: undecided condition %s" % text(s.kids[0]))
+                if v:
+                    run(s.kids[1])
+                elif len(s.kids) > 2:
+                    run(s.kids[2])
+                return
+            if k in ("DeclStmt", "NullStmt", "DoStmt", "BinaryOperator", "CallExpr") or \
+                    s.mo in ("PER_UNUSE", "COPY_KEY", "assert"):
+                return
+            raise AnalysisError("ends-cross: statement %s at %s:%s" % (k, s.f, s.l))
+
+        try:
+            for s in tail:
+                run(s)
+        except _Done:
+            pass
+        table[(mg, emin, xg, emax, same)] = sorted(set(t for t in tests if t != "compared"))
+    return table
+
+
+def c_cross_spec(mg, emin, xg, emax, same):
+    """Required emptiness tests (a superfluous key comparison is harmless)."""
+    if same:
+        return ["offsets"]
+    if (mg or emin) and (xg or emax):
+        return ["keys"]
+    return []
